@@ -14,10 +14,11 @@ theorem adjY_group (ps : List (Definition × Nat)) (dA gd : Definition) (gk : Na
   | cons _ _ => rfl
 
 theorem setRight_none_eq {a b : ParseNode} (h : setRight none a = setRight none b) :
-    a.definition = b.definition ∧ a.parent = b.parent ∧ a.left = b.left ∧ a.lexToken = b.lexToken := by
+    a.definition = b.definition ∧ a.parent = b.parent ∧ a.left = b.left ∧ a.lexToken = b.lexToken ∧
+      a.secondaryDefinition = b.secondaryDefinition := by
   cases a; cases b
   simp only [setRight, ParseNode.mk.injEq] at h
-  exact ⟨h.1, h.2.2.1, h.2.2.2.1, h.2.2.2.2.2⟩
+  exact ⟨h.1, h.2.2.1, h.2.2.2.1, h.2.2.2.2.2, h.2.1⟩
 
 theorem isCloseFor_closes {d : Definition} {c : PToken} (h : isCloseFor d c) : closes d c := by
   rcases h with h | h
@@ -26,189 +27,5 @@ theorem isCloseFor_closes {d : Definition} {c : PToken} (h : isCloseFor d c) : c
 
 theorem isCloseFor_secdef {d : Definition} {c : PToken} (h : isCloseFor d c) : (getDefinition c.type).2 = .endGrouping := by
   rcases h with ⟨_, h⟩ | ⟨_, h⟩ <;> rw [h] <;> rfl
-
-/-- `prefix* ( trivia* E trivia* )` is a complete operand -/
-theorem opd_bracket {inner : List PToken} {ls : Bool} (hin : ExprOK inner ls) (pre : List PToken) (o c : PToken)
-    (wsA wsB : List PToken) (hpre : ∀ p ∈ pre, isPrefixTok p = true) (ho : isOpenTok o = true)
-    (hc : isCloseFor (getDefinition o.type).1 c) (hwA : ∀ w ∈ wsA, isTriviaTok w = true)
-    (hwB : ∀ w ∈ wsB, isTriviaTok w = true) (hne : inner ≠ []) :
-    OpdOK (pre ++ (o :: (wsA ++ (inner ++ (wsB ++ [c]))))) := by
-  intro st1 ug hO hprios hcg pos hnum rest
-  obtain ⟨hsO, hdO⟩ := open_def_facts ho
-  have hbrO : isBracketDef (getDefinition o.type).1 = true := by rcases hdO with h | h <;> rw [h] <;> rfl
-  have hfO := bracket_facts hbrO
-  -- positions
-  have hnumO := numbered_append pre _ pos hnum
-  have hocol : o.col = pos + pre.length := hnumO.1
-  have hnumA := numbered_append wsA _ _ hnumO.2
-  have hnumI := numbered_prefix inner _ _ hnumA
-  -- prefix operators
-  have hO1 := pushP_openB pre st1 ug hO hpre
-  have hsz1 := pushP_size pre st1
-  obtain ⟨hgs1, hcg1⟩ := pushP_fields pre st1
-  -- the opening bracket
-  have hOO := hO1.stepO o ho
-  have hgO : (stepO (pushP st1 pre) o).nodes[(pushP st1 pre).nodes.size]? =
-      some ⟨(getDefinition o.type).1, .startGrouping, (pushP st1 pre).nextParent, none,
-        some ((pushP st1 pre).nodes.size + 1), o⟩ := by simp [stepO]
-  -- trivia
-  obtain ⟨sO', hloopA, hOO', hnO', hnpO', hllO', hgsO', hcgO'⟩ :=
-    trivia_runB wsA (stepO (pushP st1 pre) o) (some (pushP st1 pre).nodes.size) (inner ++ (wsB ++ [c]) ++ rest) hOO
-      (by simp [stepO]) hwA (by simp [hne])
-  have hfs : FrameStart sO' (some (pushP st1 pre).nodes.size) (some (pushP st1 pre).nodes.size)
-      ((pushP st1 pre).nodes.size + 1) := by
-    refine .bracket _ _ 20 (by rw [hnO']; simp [stepO]) (by rw [hnpO']; rfl) (by rw [hnO']; exact hgO) hfO.2.1 hfO.1 rfl
-  have hpriosO : AllPrio sO'.nodes := by
-    rw [hnO']
-    intro i nd hi
-    simp only [stepO, Array.getElem?_push] at hi
-    split at hi
-    · injection hi with hi; subst hi; exact ⟨20, hfO.1⟩
-    · exact pushP_allPrio pre st1 hprios hpre i nd hi
-  have hcgO : CGOK sO' := by
-    unfold CGOK
-    rw [hcgO', hgsO']
-    simp [stepO]
-  -- the inner expression
-  obtain ⟨stE, E, re, cbE, hloopE, hinvE, hgsE, hcgE, ho1E, ho2E, hrdE, hrefE⟩ :=
-    hin sO' _ _ _ hOO' hfs hpriosO hcgO _ hnumI ((wsB ++ [c]) ++ rest)
-  obtain ⟨stE', hloopB, hinvE', hnE', hgsE', hcgE'⟩ := trivia_runU wsB stE ([c] ++ rest) hinvE hwB
-  -- the bracket node now
-  have hgE : ∃ G', stE.nodes[(pushP st1 pre).nodes.size]? = some G' ∧ G'.right = some re ∧
-      G'.definition = (getDefinition o.type).1 ∧ G'.parent = (pushP st1 pre).nextParent ∧ G'.left = none ∧
-      G'.lexToken = o := by
-    cases hfr : hinvE.n.frame with
-    | bracket g re' G' pg hG' _ _ hGr =>
-      refine ⟨G', hG', hGr, ?_⟩
-      have := ho2E (pushP st1 pre).nodes.size (by omega)
-      rw [hG', hnO', hgO] at this
-      simp only [Option.map_some, Option.some.injEq] at this
-      obtain ⟨e1, e2, e3, e4⟩ := setRight_none_eq this
-      exact ⟨e1, e2, e3, e4⟩
-  obtain ⟨G', hG', hGr', hGd', hGp', hGl', hGt'⟩ := hgE
-  have hback : stE'.groupStack.back? = some ((pushP st1 pre).nodes.size, false) := by
-    rw [hgsE', hgsE, hgsO']
-    simp [stepO]
-  have hclose := step_closeU hinvE' G' (by rw [hnE']; exact hG') false hback c
-    (by rw [hGd']; exact isCloseFor_closes hc) rest.isEmpty
-  -- facts about the final array
-  have hsE : (pushP st1 pre).nodes.size + 1 < stE.nodes.size := hinvE.n.pos
-  have hagree : ∀ j, j < (pushP st1 pre).nodes.size → stE.nodes[j]? = (pushP st1 pre).nodes[j]? := by
-    intro j hj
-    rw [ho1E j (by omega), hnO']
-    simp only [stepO, Array.getElem?_push]
-    rw [if_neg (by omega)]
-  let X : Tree := .node .nil (pushP st1 pre).nodes.size o.col E
-  have hXtree : IsTreeAt stE.nodes (pushP st1 pre).nextParent (some (pushP st1 pre).nodes.size) X := by
-    refine isTreeAt_node G' hG' hGp' (by rw [hGl']; exact .nil _) ?_ (by simp [tokPos, hGt'])
-    rw [hGr']
-    exact hinvE.n.tree
-  have htree := chainR_isTreeAt pre st1 stE.nodes X hagree hXtree
-  have hpdef : ∀ (i : Nat) (h : i < pre.length),
-      dfOf stE.nodes (st1.nodes.size + i) = (getDefinition (pre[i]).type).1 := by
-    intro i h
-    simp only [dfOf, hagree _ (show st1.nodes.size + i < (pushP st1 pre).nodes.size by omega), pushP_def pre st1 i h,
-      Option.getD_some]
-  have hgdef : dfOf stE.nodes (pushP st1 pre).nodes.size = (getDefinition o.type).1 := by simp [dfOf, hG', hGd']
-  have hleaves := leavesP_facts pre pos hpre
-  have hcols : (leavesP pre pos).map (·.2) = pre.map (·.col) := leavesP_cols pre pos _ hnum
-  have hstE'nodes : (stepC stE' (pushP st1 pre).nodes.size false c).nodes = stE.nodes := hnE'
-  refine ⟨stepC stE' (pushP st1 pre).nodes.size false c, chainR st1.nodes.size (pre.map (·.col)) X,
-    (pushP st1 pre).nodes.size,
-    fun R => plug (plugLeaves R (leavesP pre pos))
-      (.group (getDefinition o.type).1 (pos + pre.length) (toRG (dfOf stE.nodes) E)), ?_, ?_, ?_, ?_⟩
-  · -- the loop
-    have e1 : pre ++ (o :: (wsA ++ (inner ++ (wsB ++ [c])))) ++ rest =
-        pre ++ ((o :: (wsA ++ (inner ++ (wsB ++ [c])))) ++ rest) := by simp
-    rw [e1, prefix_runB pre st1 ug _ hO hpre (by simp)]
-    simp only [List.cons_append, loop]
-    have he' : (wsA ++ (inner ++ (wsB ++ [c])) ++ rest).isEmpty = false := by
-      cases wsA <;> cases inner <;> simp_all
-    rw [he', step_openB (pushP st1 pre) ug o ho hO1]
-    simp only [Outcome.bind]
-    have e2 : wsA ++ (inner ++ (wsB ++ [c])) ++ rest = wsA ++ (inner ++ (wsB ++ [c]) ++ rest) := by simp
-    have e3 : inner ++ (wsB ++ [c]) ++ rest = inner ++ ((wsB ++ [c]) ++ rest) := by simp
-    have e4 : (wsB ++ [c]) ++ rest = wsB ++ ([c] ++ rest) := by simp
-    rw [e2, hloopA, e3, hloopE, e4, hloopB]
-    simp only [List.cons_append, List.nil_append, loop, hclose, Outcome.bind]
-  · -- the operand
-    refine ⟨?_, ?_, ?_, ?_, hinvE'.nnl, ?_, ?_, ?_, ?_, ?_, ?_,
-      ⟨_, G', rfl, by rw [hstE'nodes]; exact hG', Or.inr (by rw [hGd']; exact hbrO)⟩⟩
-    · intro j hj
-      rw [hstE'nodes, hagree j (by omega), pushP_below pre st1 j hj]
-    · rw [hstE'nodes]; omega
-    · rw [hstE'nodes]; exact htree
-    · rw [hstE'nodes, chainR_inorder, List.length_map]
-      simp only [X, Tree.inorder, List.nil_append]
-      rw [hinvE.n.inord, hsz1]
-      have e : stE.nodes.size - st1.nodes.size =
-          pre.length + ((stE.nodes.size - (st1.nodes.size + pre.length + 1)) + 1) := by omega
-      rw [e, ← List.range'_append_1, List.range'_succ]
-    · show stE'.groupStack.pop = st1.groupStack
-      rw [hgsE', hgsE, hgsO']
-      simp [stepO, hgs1]
-    · show (if stE'.groupStack.pop.isEmpty then none else some (stE'.groupStack.pop.size - 1)) = st1.currentGroup
-      have : stE'.groupStack.pop = st1.groupStack := by
-        rw [hgsE', hgsE, hgsO']
-        simp [stepO, hgs1]
-      rw [this]
-      exact hcg.symm
-    · have hb : Bot (stepC stE' (pushP st1 pre).nodes.size false c) (chainR st1.nodes.size (pre.map (·.col)) X)
-          (pushP st1 pre).nodes.size := by
-        refine .closed _ G' ?_ rfl (by rw [hstE'nodes]; exact hG') (by rw [hGd']; exact hbrO) ?_
-        · rw [hstE'nodes]; omega
-        · exact onSpine_chainR _ _ _ X (Or.inl rfl)
-      exact hb
-    · rw [hstE'nodes]
-      apply spineG_chainR _ _ _ _ _ (by intro i hi; rw [List.length_map] at hi; rw [hpdef i hi]
-                                        have hi' : i < (leavesP pre pos).length := by rw [leavesP_length]; exact hi
-                                        have := hleaves _ (List.getElem_mem hi')
-                                        rw [leavesP_get] at this
-                                        exact this.2.2)
-        (by rw [List.length_map, hsz1]; omega)
-      simp only [X, SpineG, if_true, hgdef]
-      exact hbrO
-    · rw [hstE'nodes]; exact hinvE.n.prios
-    · exact Or.inr (Or.inr (isCloseFor_secdef hc))
-  · -- the reference tree of the operand
-    rw [hstE'nodes]
-    apply plugFn_of _ _ _ _ _ (fun p hp => ⟨(hleaves p hp).1, (hleaves p hp).2.1⟩)
-    · rw [adjY_group, ← hcols, toRG_chainR (dfOf stE.nodes) (leavesP pre pos) st1.nodes.size X
-        (by intro i h
-            rw [leavesP_get pre pos i h]
-            exact hpdef i (by rw [leavesP_length] at h; exact h))
-        (fun p hp => (hleaves p hp).2.2)]
-      congr 1
-      simp only [X, toRG, hgdef, hbrO, if_true, hocol]
-    · intro _; exact adjY_group _ _ _ _ _
-  · -- the reference parser
-    intro f stack restR hf
-    have e1 : pre ++ (o :: (wsA ++ (inner ++ (wsB ++ [c])))) ++ restR =
-        pre ++ (o :: (wsA ++ (inner ++ (wsB ++ ([c] ++ restR))))) := by simp
-    obtain ⟨b, b2, l, hl, h⟩ := ref_prefix_runK pre f stack pos (o :: (wsA ++ (inner ++ (wsB ++ ([c] ++ restR))))) hpre hf
-    rw [e1, h]
-    conv => lhs; unfold refLoop
-    rw [ref_open_stepK _ stack _ o _ ho hl]
-    simp only [Outcome.bind]
-    obtain ⟨bA, hbA⟩ := ref_skipK wsA
-      { ctx := some ((getDefinition o.type).1, pos + pre.length), cur := .nil, last := .start, ws := false,
-        prevSep := (getDefinition o.type).1 == .nestedExpression }
-      ({ f with cur := plugLeaves f.cur (leavesP pre pos), last := l, ws := false, prevSep := b2 } :: stack)
-      (pos + pre.length + 1) (inner ++ (wsB ++ ([c] ++ restR))) hwA
-    rw [hbA, hrefE _ _ (wsB ++ ([c] ++ restR)) rfl rfl]
-    obtain ⟨bB, hbB⟩ := ref_skipK wsB
-      { ctx := some ((getDefinition o.type).1, pos + pre.length), cur := toRG (dfOf stE.nodes) E,
-        last := if ls then .suffix else .operand, ws := false, prevSep := false }
-      ({ f with cur := plugLeaves f.cur (leavesP pre pos), last := l, ws := false, prevSep := b2 } :: stack)
-      (pos + pre.length + 1 + wsA.length + inner.length) ([c] ++ restR) hwB
-    rw [hbB]
-    conv => lhs; unfold refLoop
-    simp only [List.cons_append, List.nil_append]
-    rw [ref_close_stepK _ _ stack _ c restR (getDefinition o.type).1 (pos + pre.length) rfl hc (by cases ls <;> simp)]
-    simp only [Outcome.bind]
-    have hlen : pos + pre.length + 1 + wsA.length + inner.length + wsB.length + 1 =
-        pos + (pre ++ (o :: (wsA ++ (inner ++ (wsB ++ [c]))))).length := by
-      simp only [List.length_append, List.length_cons, List.length_nil]; omega
-    rw [hlen]
 
 end Garnish.Spec
